@@ -3,7 +3,7 @@ package main
 import (
 	"context"
 	"fmt"
-	"strconv"
+	"math/big"
 	"strings"
 	"sync"
 	"sync/atomic"
@@ -20,7 +20,30 @@ import (
 // Everything here drives the REAL code (pkg/resource) and renders what it observes in the answer
 // format of the Lean drivers.
 
+// Instants are rendered as an integer: nanoseconds relative to the test clock's origin
+// time.Unix(clockBase, 0). The clock ticks in nanoseconds, so clock readings are small numbers, and
+// any time.Time (the zero value, before the epoch, far future, sub-second) has an exact rendering
+// that can never be mistaken for an absent time.
 const clockBase = 1_000_000
+
+var nsPerSec = big.NewInt(1_000_000_000)
+
+// instant converts a rendered instant back to a time.Time.
+func instant(off string) time.Time {
+	n, ok := new(big.Int).SetString(off, 10)
+	if !ok {
+		panic("bad instant " + off)
+	}
+	sec, ns := new(big.Int).DivMod(n, nsPerSec, new(big.Int)) // Euclidean: 0 <= ns < 1e9
+	t := time.Unix(sec.Int64()+clockBase, ns.Int64()).UTC()
+	if t.IsZero() {
+		return time.Time{} // the zero value itself
+	}
+	return t
+}
+
+// zeroInstant is the rendering of time.Time{}.
+var zeroInstant = showTime(time.Time{})
 
 // testClock: Now() returns tick n and advances by step; frozen during construction.
 type testClock struct {
@@ -29,14 +52,17 @@ type testClock struct {
 }
 
 func (c *testClock) Now() time.Time {
-	t := time.Unix(clockBase+int64(c.n), 0).UTC()
+	t := time.Unix(clockBase, int64(c.n)).UTC()
 	if !c.frozen {
 		c.n += c.step
 	}
 	return t
 }
 
-func showTime(t time.Time) string { return strconv.FormatInt(t.Unix()-clockBase, 10) }
+func showTime(t time.Time) string {
+	n := new(big.Int).Mul(big.NewInt(t.Unix()-clockBase), nsPerSec)
+	return n.Add(n, big.NewInt(int64(t.Nanosecond()))).String()
+}
 
 // scriptRNG yields the scripted bytes, then nothing (the destination keeps its zero bytes).
 type scriptRNG struct{ b []byte }
@@ -390,8 +416,7 @@ func writeOptions(o Op, cb *callbacks) []resource.WriteOption {
 		}
 		switch k {
 		case "wt":
-			n, _ := strconv.Atoi(v)
-			ws = append(ws, resource.WithWriteTime(time.Unix(clockBase+int64(n), 0).UTC()))
+			ws = append(ws, resource.WithWriteTime(instant(v)))
 		case "um":
 			ws = append(ws, resource.WithUpdateMask(parseMask(v)))
 		case "rs":
